@@ -288,6 +288,10 @@ func (r *Rig) WaitEvents(kind string, n int, d time.Duration) bool {
 	}
 }
 
+// BeginShutdown cancels the proxy's context: listeners are closed and martian's Shutdown starts (it waits for
+// the open connections), without waiting for it to finish.
+func (r *Rig) BeginShutdown() { r.stop() }
+
 // Close shuts the proxy down (after the observations have been taken).
 func (r *Rig) Close() {
 	r.stop()
